@@ -190,6 +190,82 @@ def literal10 (s : List Char) : Option (Bool × Nat × Int) :=
   | none => none
   | some e => some (neg, (String.ofList (ip ++ fp)).toNat?.getD 0, e - fp.length)
 
+/-- digit value of a mantissa character in base ≤ 16 -/
+def digitVal (c : Char) : Option Nat :=
+  if c.isDigit then some (c.toNat - 48)
+  else if 'a' ≤ c && c ≤ 'f' then some (c.toNat - 87)
+  else if 'A' ≤ c && c ≤ 'F' then some (c.toNat - 55)
+  else none
+
+/-- Exact value of an accepted literal in the DETECTED base `b`, read independently of the model's scanner
+    (underscores dropped): `[sign] [0b|0o|0x] digits [. digits] [(e|E|p|P) [sign] digits]` — `e`/`E` is an exponent
+    marker only when it is not a digit of the base. Result: sign, the mantissa digits as an integer `c`, and exponents
+    `(k10, k2)` with value `c × 10^k10 × 2^k2`. `none` when the literal is not of that shape or an exponent exceeds
+    `lim` in magnitude (the rational would not be computable). -/
+def literalB (s : List Char) (b : Nat) (lim : Nat) : Option (Bool × Nat × Int × Int) :=
+  let s := s.filter (· != '_')
+  let (neg, s) := match s with | '-' :: r => (true, r) | '+' :: r => (false, r) | _ => (false, s)
+  let s := match s with
+    | '0' :: c :: r => if (b == 16 && (c == 'x' || c == 'X')) || (b == 2 && (c == 'b' || c == 'B')) || (b == 8 && (c == 'o' || c == 'O')) then r else s
+    | _ => s
+  let isDig : Char → Bool := fun c => match digitVal c with | some v => v < b | none => false
+  let ip := s.takeWhile isDig
+  let s1 := s.dropWhile isDig
+  let (fp, s2) := match s1 with
+    | '.' :: r => (r.takeWhile isDig, r.dropWhile isDig)
+    | _ => ([], s1)
+  let c : Nat := (ip ++ fp).foldl (fun a ch => a * b + (digitVal ch).getD 0) 0
+  let bitsPer : Int := if b == 16 then 4 else if b == 8 then 3 else if b == 2 then 1 else 0
+  let fl : Int := fp.length
+  let ex? : Option (Bool × Int) := match s2 with
+    | [] => some (false, 0)
+    | m :: r =>
+      let (en, r) := match r with | '-' :: q => (true, q) | '+' :: q => (false, q) | _ => (false, r)
+      let isP := m == 'p' || m == 'P'
+      if isP || ((m == 'e' || m == 'E') && b ≤ 10) then
+        if r.isEmpty || !r.all Char.isDigit then none
+        else (String.ofList r).toNat?.map (fun v => (isP, if en then -(v : Int) else v))
+      else none
+  match ex? with
+  | none => none
+  | some (isP, e) =>
+    let k10 : Int := (if b == 10 then -fl else 0) + (if isP then 0 else e)
+    let k2 : Int := (if b == 10 then 0 else -fl * bitsPer) + (if isP then e else 0)
+    if k10.natAbs > lim || k2.natAbs > lim then none else some (neg, c, k10, k2)
+
+/-- 2^e as a rational (local copy: `Spec.pow2Rat` lives in a module imported later). -/
+def pow2R (e : Int) : Rat := if e ≥ 0 then ((2 ^ e.toNat : Nat) : Rat) else 1 / ((2 ^ (-e).toNat : Nat) : Rat)
+
+/-- The clause of C12 for literals in base 2, 8, 16 or with a `p` exponent: stored exactly when the value is
+    representable at the receiver's precision (then the accuracy is Exact), otherwise at most one unit in the last
+    place away from the exact value. Returns `(message, knownClass)`. -/
+def nonDecimalSpec (chars : List Char) (b : Nat) (mode : Mode) (p : Nat) (g : Dec) : Option String × Option String :=
+  match literalB chars b 40000 with
+  | none => (none, none)
+  | some (neg, c, k10, k2) =>
+    if c == 0 then ((if g.form == .zero && g.neg == neg then none else some "zero literal not stored as a zero of its sign"), none)
+    else
+      let q : Rat := (c : Rat) * pow2R k2
+      let want := Spec.round mode p neg q k10
+      if want.form != .finite || g.form != .finite then (none, none) else
+      -- the power of two is delivered exactly by pow2 iff it fits its working precision p + 19
+      let pow2Exact := k2 == 0 || ndigits (2 ^ k2.natAbs) ≤ p + 19
+      let cls := if pow2Exact then none else some "parse-binary-exponent-double-rounding"
+      if want.acc == 0 then
+        (if Spec.agrees g want then (none, none)
+         else (some s!"non-decimal literal representable in {p} digits but not stored exactly (or accuracy not Exact): want coef={want.coef} exp={want.exp}; got {stateToString g}", cls))
+      else
+        let gv : Rat := (g.mant : Rat) * Spec.pow10Rat (g.exp - (g.len * DW : Nat))
+        let ev : Rat := q * Spec.pow10Rat k10
+        let ulp : Rat := Spec.pow10Rat (g.exp - (p : Int))
+        let d := if gv < ev then ev - gv else gv - ev
+        if g.neg != neg then (some "sign", none)
+        else if d ≤ ulp then
+          -- truthful accuracy is part of the property as well
+          let accOk := (g.acc == 0) == (gv == ev) && (g.acc == 0 || ((g.acc == 1) == ((gv > ev) != neg)))
+          (if accOk then (none, none) else (some s!"accuracy does not report the sign of (stored - exact): {stateToString g}", cls))
+        else (some s!"more than one unit in the last place from the exact value: {stateToString g}", cls)
+
 /-- `kind` ∈ parse (whole string), sscan (longest prefix through fmt.Sscan). -/
 def parseOp (env : Array Dec) (kind zs bs hs : String) : Step :=
   match getVar env zs, bs.toNat?, hexToBytes hs with
@@ -226,11 +302,18 @@ def parseOp (env : Array Dec) (kind zs bs hs : String) : Step :=
             else if g.prec != p || g.mode != z.mode then some "precision/mode"
             else none
           | _, _ => some "cannot read the literal")
-        else none
+        else
+          (match r, genv[zi]? with
+          | .ok (_, b), some g => (nonDecimalSpec chars b z.mode p g).1
+          | _, _ => none)
       | _ => some "bad extra"
+    let knownCls : Option String := match r with
+      | .ok (d, b) => if isPlain10 then none else (nonDecimalSpec chars b z.mode p d).2
+      | _ => none
     let _ := kind
     { env := env', extra := extra, skipExtra := true, skipVars := skip,
       spec := andSpec sp (andSpec (frameOk env [zi]) canonicalAll),
+      known := knownCls,
       tags := ["parse", extra.takeWhile (· != ' ') |>.toString] ++ (if isPlain10 then ["base10"] else []) ++
         (if chars.contains '_' then ["underscore"] else []) ++
         (match r with | .ok (d, _) => (if d.acc != 0 then ["inexact"] else []) ++ (if isPlain10 then [] else ["nondecimal-or-inf"]) | .error _ => ["rejected"]) }
